@@ -23,10 +23,12 @@ EXPLANATION = (
     "R6 export wiring: Network.export writes reactions.naunet in format 'naunet' on every path that continues to the configuration and sources, NetworkConfiguration records exactly that file/format and exports "
     "binding energies / yields of every surface species, and 'naunet' maps to the class whose __format__ wrote the file; R10 BaseConfiguration.content writes each "
     "of those tables (binding_energy, photon_yield, rate_modifier, ode_modifier, files, formats) whole -- the attribute, a copy, or an unfiltered key-by-key re-spelling; "
-    "R11 a format class whose law lives in state the exchange format cannot store (KROME's explicit rate text) exports only type codes the native class refuses.")
+    "R11 a format class whose law lives in state the exchange format cannot store (KROME's explicit rate text) exports only type codes the native class refuses; "
+    "R12 (shared with C07.R1) every record the writer emits reaches the parser on read-back: the line pre-processing hook of the base class is the identity, only KROME filters "
+    "(comment / directive lines), KROME keeps every data line -- including one that names a `#` surface species -- and the reader hands the pre-processed line to the parser.")
 ASSUMPTIONS = [
     "equality 'to printed precision' of particular numbers is a property of Python's float formatting, not decided",
-    "blank-line handling of the reader is C07.R1",
+    "blank-line handling of the reader is C07.R1 (its pre-processing obligations are adopted as R12)",
 ]
 ENGINES = ["pymodel", "valueflow", "calg", "ratemodel"]
 
@@ -55,6 +57,11 @@ def check(ctx):
     _content_tables_whole(ctx, pkg, rm)
     from .c13 import _r7 as modifier_tables_whole
     ctx.absorb(modifier_tables_whole, "R9", only=lambda o: o.outcome != "MISSING")
+    # a record that was written must reach the parser when the file is read back: the pre-processing hooks drop / rewrite no data line
+    # (shared with C07.R1; a native record whose index column is the default -1, a KROME record naming `#CO`)
+    from .c07 import _r1 as line_reader
+    ctx.absorb(lambda sub: line_reader(sub, package(sub.tree)), "R12",
+               only=lambda o: ("preprocessing" in o.key) and o.outcome != "MISSING")
 
 
 def _writer(ctx, rm, pkg):
